@@ -251,5 +251,5 @@ def run(ctx: Ctx):
     q = ctx.tier == "quick"
     parts = []
     parts.append(given_part(ctx, "manycontig", manycontig_cases(), check_manycontig, per_shard(ctx, 64 if q else 1600), batch=8))
-    parts.append(given_part(ctx, "rename", cases(), check_rename, per_shard(ctx, 480 if q else 14000), batch=40))
+    parts.append(given_part(ctx, "rename", cases(), check_rename, per_shard(ctx, 400 if q else 14000), batch=40))
     run_parts(ctx, parts)
